@@ -240,6 +240,31 @@ def rounds(repo, rule):
                 and norm(st.value.generators[0].iter).startswith("zip(")
             if not okadd:
                 rule.undecided(fi.loc(st), fi.fq, norm(st)[:100], "constant addition not in the element-wise zip form")
+        # a choice by kind written as a statement (`if isinstance(v, int): S[0] = A  else: S[0] = B`, v = S[0]) is the conditional
+        # expression  S[0] = A if isinstance(S[0], int) else B
+        newbody = []
+        for s in lp.body:
+            if isinstance(s, ast.If) and "isinstance(" in norm(s.test) and len(s.body) == 1 and len(s.orelse) == 1 \
+                    and isinstance(s.body[0], ast.Assign) and isinstance(s.orelse[0], ast.Assign) \
+                    and norm(s.body[0].targets[0]) == norm(s.orelse[0].targets[0]):
+                ie = ast.IfExp(test=s.test, body=s.body[0].value, orelse=s.orelse[0].value)
+                asg = ast.copy_location(ast.Assign(targets=s.body[0].targets, value=ie), s)
+                prev = newbody[-1] if newbody else None
+                if isinstance(prev, ast.Assign) and len(prev.targets) == 1 and isinstance(prev.targets[0], ast.Name) \
+                        and sum(1 for x in ast.walk(lp) if isinstance(x, ast.Name) and x.id == prev.targets[0].id and isinstance(x.ctx, ast.Store)) == 1:
+                    from ..flatten import _Subst
+                    from ..loader import clone as _cl
+                    asg = ast.copy_location(ast.Assign(targets=s.body[0].targets, value=_Subst({prev.targets[0].id: prev.value}).visit(_cl(ie))), s)
+                    newbody.pop()
+                ast.fix_missing_locations(asg)
+                for n_ in ast.walk(asg):
+                    for c_ in ast.iter_child_nodes(n_):
+                        c_._parent = n_
+                asg._parent = lp
+                newbody.append(asg)
+            else:
+                newbody.append(s)
+        lp.body = newbody
         # S-box: `X ** a`, or a helper applied to X that the power domain shows to return X^a for every exponent of the table
         pows = [x for s in lp.body for x in ast.walk(s) if isinstance(x, ast.BinOp) and isinstance(x.op, ast.Pow)]
         helper_undecided = None
@@ -261,12 +286,29 @@ def rounds(repo, rule):
                         pows.append(x)
                     else:
                         wrong_power = (x, ks)
+        # the plain-integer form of the same power: pow(X, a, <field prime>) for a state element that is public; and a choice
+        # between the two forms by the KIND of the element (isinstance(x, int)) is the S-box whichever way it goes
+        for s in lp.body:
+            for x in ast.walk(s):
+                if isinstance(x, ast.Call) and norm(x.func) == "pow" and len(x.args) == 3 and norm(x.args[1]) == "a" \
+                        and norm(x.args[2]).endswith("get_modulus()"):
+                    x._sbox_arg = x.args[0]
+                    pows.append(x)
+
+        def _arg(p):
+            if isinstance(p, ast.IfExp):
+                return getattr(p, "_sbox_arg", None)
+            return getattr(p, "_sbox_arg", None) if isinstance(p, ast.Call) else p.left
+        for s in lp.body:
+            for x in ast.walk(s):
+                if isinstance(x, ast.IfExp) and x.body in pows and x.orelse in pows and "isinstance(" in norm(x.test) \
+                        and norm(_arg(x.body)) == norm(_arg(x.orelse)):
+                    x._sbox_arg = _arg(x.body)
+                    pows.append(x)
         sb = None
         for s in lp.body:
             if any(p in list(ast.walk(s)) for p in pows):
                 sb = s
-        def _arg(p):
-            return getattr(p, "_sbox_arg", None) if isinstance(p, ast.Call) else p.left
         if wrong_power is not None:
             rule.violation(fi.loc(wrong_power[0]), fi.fq, norm(wrong_power[0])[:80], "the S-box helper raises its argument to the power "
                            "%s for a = %s" % (", ".join(str(k) for k in wrong_power[1].values()), ", ".join(str(k) for k in wrong_power[1])),
@@ -274,14 +316,14 @@ def rounds(repo, rule):
         elif sb is None and helper_undecided is not None:
             rule.undecided(fi.loc(helper_undecided[0]), fi.fq, norm(helper_undecided[0])[:80], "helper applied in the round not "
                            "interpretable in the power domain: %s" % helper_undecided[1])
-        elif sb is None or not all(isinstance(p, ast.Call) or norm(p.right) == "a" for p in pows):
+        elif sb is None or not all(isinstance(p, (ast.Call, ast.IfExp)) or norm(p.right) == "a" for p in pows):
             rule.violation(lw, fi.fq, norm(lp.body)[:100], "round applies no `** a` S-box", "rounds/sbox/%d" % idx)
         else:
             full = isinstance(sb, ast.Assign) and isinstance(sb.value, ast.ListComp) and not sb.value.generators[0].ifs \
                 and norm(sb.value.generators[0].iter) == norm(sb.targets[0]) and sb.value.elt in pows \
                 and norm(_arg(sb.value.elt)) == norm(sb.value.generators[0].target)
             partial = isinstance(sb, ast.Assign) and isinstance(sb.targets[0], ast.Subscript) and norm(sb.targets[0].slice) == "0" \
-                and sb.value in pows and norm(_arg(sb.value)) == norm(sb.targets[0])
+                and sb.value in pows and _arg(sb.value) is not None and norm(_arg(sb.value)) == norm(sb.targets[0])
             got = "full" if full else ("partial" if partial else "?")
             if got == kinds[idx]:
                 rule.ok(fi.loc(sb), fi.fq, "group %d S-box layer: %s (%s)" % (idx + 1, got, norm(sb)[:60]))
@@ -302,6 +344,10 @@ def rounds(repo, rule):
                 rule.ok(lw, fi.fq, "group %d: constants added before the S-box" % (idx + 1))
             else:
                 rule.violation(lw, fi.fq, norm(body)[:100], "round constants are not added before the S-box", "rounds/order/%d" % idx)
+
+
+_ONES = ("LinComb.ONE", "1", "LinComb.ONE_SAFE", "ConstVal(1)")
+_ZEROS = ("LinComb.ZERO", "0", "ConstVal(0)")
 
 
 def padding(repo, rule):
@@ -338,7 +384,7 @@ def padding(repo, rule):
             else:
                 parts.append(e)
         flat(v)
-        if len(parts) >= 2 and any(isinstance(p_, ast.List) and any(norm(e) == "LinComb.ONE" for e in p_.elts) for p_ in parts):
+        if len(parts) >= 2 and any(isinstance(p_, ast.List) and any(norm(e) in _ONES for e in p_.elts) for p_ in parts):
             found = (s, parts)
             break
         # an integer local (rate, number of zeros, ...): its polynomial in m, n
@@ -387,6 +433,8 @@ def padding(repo, rule):
         else:
             order.append("?" + norm(prt))
     want = m_ - P.sym("Mod(n,m)")
+    # the marker may be the wire of the constant one or the plain integer 1, the filler the zero wire or the plain 0
+    order = ["LinComb.ONE" if o in _ONES else ("LinComb.ZERO*" if o.endswith("*") and o[:-1] in _ZEROS else o) for o in order]
     if msg is not None and msgname is not None and msg != msgname:
         # the length was taken of another list than the one that is padded
         rule.violation(w2, fi.fq, "len(%s) used to pad %s" % (msgname, msg), "the padding length is computed from a different list than "
@@ -521,7 +569,19 @@ def sponge_absorb(repo, rule):
                 if sn + "[1:]" not in srcs or len(blk) != 1 or not (blk[0] in blocks or "inputs[" in blk[0]):
                     return False
                 x, y = norm(g.target.elts[0]), norm(g.target.elts[1])
-                return isinstance(comp.elt, ast.BinOp) and isinstance(comp.elt.op, ast.Add) and {norm(comp.elt.left), norm(comp.elt.right)} == {x, y}
+
+                def sumlike(e):
+                    """x + y, or a conditional that returns the other operand when one is the plain integer 0 and x + y otherwise"""
+                    if isinstance(e, ast.BinOp) and isinstance(e.op, ast.Add) and {norm(e.left), norm(e.right)} == {x, y}:
+                        return True
+                    if isinstance(e, ast.IfExp):
+                        tt = norm(e.test).replace(" ", "")
+                        for z, other in ((x, y), (y, x)):
+                            if tt in ("isinstance(%s,int)and%s==0" % (z, z), "%s==0andisinstance(%s,int)" % (z, z), "%s==0" % z, "%sis0" % z) \
+                                    and norm(e.body) == other:
+                                return sumlike(e.orelse)
+                    return False
+                return sumlike(comp.elt)
             if isinstance(t, ast.Subscript) and norm(t) == sn + "[1:]" and not (isinstance(s.value, ast.Call) and norm(s.value.func) == "permute"):
                 if added(v):
                     absorbed = True
